@@ -2710,9 +2710,11 @@ static void struct_members(Token **rest, Token *tok, Type *ty) {
       mem->idx = idx++;
       mem->align = attr.align ? attr.align : mem->ty->align;
 
-      if (consume(&tok, tok, ":")) {
+      if (equal(tok, ":")) {
+        if (!is_integer(mem->ty))
+          error_tok(tok, "bit-field has non-integer type");
         mem->is_bitfield = true;
-        mem->bit_width = const_expr(&tok, tok);
+        mem->bit_width = const_expr(&tok, tok->next);
       }
 
       cur = cur->next = mem;
